@@ -1,4 +1,5 @@
 """C05 - a status broadcast is decoded into exactly the device the sender described (DESIGN.md 4/C05)"""
+from .common import frame_ok as _frame_ok
 import z3
 
 from pyvc.sym import Seq, Elems, Gen, array_gen, byte_fact, char_fact
@@ -43,6 +44,7 @@ def install_callback_env(ip):
             return NotImplemented
         ctx.ghost.callback_calls.append(args[0] if args else None)
         ctx.ghost.events.append(("callback", args[0] if args else None))
+        ctx.ghost.events.append(("callback_object", o))
         if o.state.get("may_raise"):
             if ctx.fork(2) == 1:
                 raise PyExc(ExcVal("CallbackError", ("raised by the user's callback",)))
@@ -94,7 +96,7 @@ def units(tier):
             obs.append(Obligation(base + "/returns_normally", ctx, ob[0] == "ret", note=str(ob[1]) if ob[0] == "exc" else ""))
             obs.append(Obligation(base + "/exactly_one_device", ctx, len(calls) == 1))
             obs.append(Obligation(base + "/no_warning", ctx, len(ctx.ghost.warnings) == 0))
-            obs.append(Obligation(base + "/assigns_nothing", ctx, not ctx.ghost.heap_writes and not ctx.ghost.module_writes,
+            obs.append(Obligation(base + "/assigns_nothing", ctx, _frame_ok(ctx)[0],
                                   note=str(ctx.ghost.module_writes[:2])))
             if len(calls) == 1:
                 dev = calls[0]
